@@ -64,6 +64,7 @@ type bsRec struct {
 	Err      string
 	Now      int64 // virtual time of the call
 	Loads    int   // loader invocations made by this call
+	LoadEnd  int64 // virtual time at which this call's (last) loader invocation returned; 0 if none
 	Panicked bool
 	// white-box bookkeeping taken at the end of the map phase (the call's linearization point)
 	Entry     *Entry[int, int] // entry the call stored into / removed (nil if none)
@@ -93,6 +94,7 @@ type bsCfg struct {
 	Loading    bool
 	LoadCost   int64
 	LoadTTL    int64
+	LoadLat    int64 // the loader takes this long (virtual time advances inside it)
 	NClients   int
 	OpsPer     int // ops per client
 	Ops        []bsOp
@@ -135,7 +137,10 @@ type bsWorld struct {
 	hy       *hyWorld // hybrid part (nil unless cfg.Hy)
 }
 
-type bsLoad struct{ K, V, Step int }
+type bsLoad struct {
+	K, V, Step int
+	End        int64 // virtual time when the loader returned
+}
 
 // bsAtWriteSend: the thread is parked in front of its event send on the write queue (a plain send, or the
 // select{send writeChan; <-ctx.Done()} of Store.send).
@@ -159,7 +164,10 @@ func newBsWorld(cfg *bsCfg) *bsWorld {
 		o.Loader = func(k int) (Loaded[int], error) {
 			w.nextV++
 			v := 1000 + w.nextV
-			w.loads = append(w.loads, bsLoad{k, v, w.step})
+			if cfg.LoadLat > 0 {
+				vrt.Advance(cfg.LoadLat)
+			}
+			w.loads = append(w.loads, bsLoad{k, v, w.step, vrt.NowNanos()})
 			return Loaded[int]{Value: v, Cost: cfg.LoadCost, TTL: time.Duration(cfg.LoadTTL)}, nil
 		}
 	}
@@ -224,6 +232,9 @@ func (w *bsWorld) runOp(rec *bsRec) {
 			rec.Err = err.Error()
 		}
 		rec.Loads = len(w.loads) - n0
+		if rec.Loads > 0 {
+			rec.LoadEnd = w.loads[len(w.loads)-1].End
+		}
 	case "wait":
 		s.Wait()
 		rec.OK = true
